@@ -488,7 +488,54 @@ def gen_occ_multi(rng):
     return spec, meta
 
 
+def gen_sigma_like(rng):
+    """The SIGMA mapping generalised: Z[m,n] = A[k,m(,j)] * B[k,(j,)n]; K is split first (by shape, or dynamically
+    by occupancy led by A), its lower level is flattened with M (and J, in any position of the tuple), the
+    flattened rank may be split by occupancy again, and N - held only by B, which is looked up by coordinate
+    inside the flattened loop - may be split dynamically too."""
+    three = rng.random() < 0.5
+    a_ranks = _perm(rng, ["K", "M"] + (["J"] if three else []))
+    b_ranks = _perm(rng, ["K", "N"] + (["J"] if three and rng.random() < 0.7 else []))
+    decl = {"A": a_ranks, "B": b_ranks}
+    out_ranks = _perm(rng, ["M", "N"])
+    items = list(decl.items())
+    items.insert(rng.randrange(3), ("Z", out_ranks))
+    facs = ["A" + _access(a_ranks), "B" + _access(b_ranks)]
+    if rng.random() < 0.3:
+        facs.reverse()
+    spec = {"decl": dict(items), "exprs": ["Z" + _access(out_ranks) + " = " + " * ".join(facs)], "rank_order": None,
+            "partitioning": None, "loop_order": None, "spacetime": None, "arch": None, "bindings": None, "format": None}
+    part = {}
+    dyn_pre = rng.random() < 0.4
+    part["K"] = ["uniform_occupancy(A.%d)" % rng.choice([2, 3, 4])] if dyn_pre else ["uniform_shape(%d)" % rng.choice([2, 3, 4])]
+    group = _perm(rng, ["M", "K0"] + (["J"] if three else []))
+    flat = "".join(group)
+    part["(" + ", ".join(group) + ")"] = ["flatten()"]
+    nocc = _choice_w(rng, [(0, 4), (1, 4), (2, 2)])
+    if nocc:
+        part[flat] = ["uniform_occupancy(A.%d)" % rng.choice([1, 2, 3, 5]) for _ in range(nocc)]
+    flat_levels = [flat + str(i) for i in range(nocc, -1, -1)] if nocc else [flat]
+    n_levels = ["N"]
+    if rng.random() < 0.4:
+        part["N"] = ["uniform_occupancy(B.%d)" % rng.choice([1, 2, 3])]
+        n_levels = ["N1", "N0"]
+    spec["partitioning"] = {"Z": part}
+    groups = [["K1"] + flat_levels, n_levels]
+    if three and "J" not in group:
+        groups.append(["J"])
+    spec["loop_order"] = {"Z": loop_order_over(rng, groups, "ordered")}
+    extents = {"K": rng.randint(3, 8), "M": rng.randint(1, 4), "N": rng.randint(1, 5), "J": rng.randint(1, 3)}
+    extents = {r: v for r, v in extents.items() if any(r in rs for rs in decl.values())}
+    meta = {"ranks": ["M", "N", "K"] + (["J"] if three else []), "out_only": [], "kind": "times", "nterms": 1, "scalars": [],
+            "part": part, "syms": {}, "lo_mode": "ordered", "extents": extents, "omode": "sigma_like",
+            "flat": {"tensor": "A", "ranks": group, "under_shape": "K", "nocc": nocc}, "nlevels": len(part) + nocc, "npart": len(part)}
+    return spec, meta
+
+
 def gen_occ(rng):
+    x = rng.random()
+    if x < 0.1:
+        return gen_sigma_like(rng)
     x = rng.random()
     if x < 0.12:
         return gen_flatten2(rng)
@@ -518,9 +565,13 @@ def gen_occ(rng):
         key_ranks = list(fr)
         pre = None
         if under_shape:
-            # sigma pattern: shape-split one of the ranks first, flatten its lower level
+            # sigma pattern: split one of the ranks first (by shape, or dynamically by occupancy led by the
+            # flattened tensor), flatten its lower level
             pre = rng.choice(fr)
-            part[pre] = ["uniform_shape(%d)" % rng.choice([2, 3, 4])]
+            if rng.random() < 0.3:
+                part[pre] = ["uniform_occupancy(%s.%d)" % (t, rng.choice([1, 2, 3, 4]))]
+            else:
+                part[pre] = ["uniform_shape(%d)" % rng.choice([2, 3, 4])]
             key_ranks = [r + "0" if r == pre else r for r in fr]
         flat_name = "".join(key_ranks)
         part["(" + ", ".join(key_ranks) + ")"] = ["flatten()"]
@@ -530,10 +581,17 @@ def gen_occ(rng):
             leader = rng.choice(leaders)
             part[flat_name] = ["uniform_occupancy(%s.%d)" % (leader, rng.choice([1, 2, 3, 5])) for _ in range(nocc)]
         flat_levels = [flat_name + str(i) for i in range(nocc, -1, -1)] if nocc else [flat_name]
+        side = None
+        rest = [r for r in ranks if r not in fr]
+        if rest and rng.random() < 0.3:
+            # a rank outside the flattening is split dynamically as well (its holder may be a tensor that is only
+            # looked up by coordinate inside the flattened loop)
+            side = rng.choice(rest)
+            part[side] = ["uniform_occupancy(%s.%d)" % (rng.choice(hold[side]), rng.choice([1, 2, 3]))]
         for r in ranks:
             if r in fr:
                 continue
-            groups.append([r])
+            groups.append(levels_of(r, 1) if r == side else [r])
         g = ([pre + "1"] if pre else []) + flat_levels
         groups.append(g)
         flat_info = {"tensor": t, "ranks": fr, "under_shape": pre, "nocc": nocc}
